@@ -619,6 +619,8 @@ CO_ERR COSdoEndDownloadBlock(CO_SDO *srv)
         if (result != CO_ERR_NONE) {
             srv->Node->Error = CO_ERR_SDO_WRITE;
             COSdoAbort(srv, CO_SDO_ERR_TOS);
+            COSdoAbortReq(srv);
+            return (CO_ERR_SDO_ABORT);
         }
         CO_SET_BYTE(srv->Frm, 0xA1, 0);
         CO_SET_WORD(srv->Frm, 0, 1);
